@@ -25,7 +25,7 @@ NAMES = {
     "C06": ["p1.mtail", "p2.mtail", "p3.mtail"],
 }
 # actions of Next that a family never takes (Probe is the C26 probe line)
-UNUSED = {"C14": {"Probe"}, "C06": {"Probe"}, "C26": set()}
+UNUSED = {"C14": {"Probe"}, "C06": {"Probe", "LaMark", "LaNext", "LaUnload"}, "C26": set()}   # C06 calls LoadProgram directly
 
 LINES = {"a": "new a", "b": "new b", "A": "old a", "0": "new 0"}
 
@@ -86,21 +86,26 @@ def tla_act(a):
 
 
 def model(ctx, fam, maxops, maxlines=3, devs=(), invs=(), emit=False, view=None, firstbase=True,
-          script=None, names=None, label=None, **kw):
+          scripts=None, names=None, label=None, omit_source=False, **kw):
     """One TLC run of Runtime.tla.  view defaults to the history-free fingerprint
     for property runs and to the full state for runs that emit cases."""
     names = names or NAMES[fam]
     if view is None:
         view = not emit
-    c = {"Family": fam, "MaxOps": maxops, "MaxLines": maxlines, "FirstBase": firstbase, "EmitCases": emit}
+    c = {"Family": fam, "MaxOps": maxops, "MaxLines": maxlines, "FirstBase": firstbase, "EmitCases": emit,
+         "OmitSource": omit_source}
     for d in DEVS:
         c[d] = d in devs
     t = vlib.cfg_text(spec="Spec", constants=c, invariants=list(invs) + ["Emit"],
                       view="StateView" if view else None)
-    t = t.replace("CONSTANTS\n", "CONSTANTS\n  Names <- McNames\n  Script <- McScript\n")
-    sc = "<<" + ", ".join(tla_act(a) for a in script) + ">>" if script else "<<>>"
-    mc = "---- MODULE RuntimeMC ----\nEXTENDS Runtime\nMcNames == %s\nMcScript == %s\n====\n" % (
-        vlib.tla_value(list(names)), sc)
+    t = t.replace("CONSTANTS\n", "CONSTANTS\n  Names <- McNames\n  Prefixes <- McPrefixes\n")
+    if scripts:
+        sc = "{" + ",\n  ".join("<<" + ", ".join(tla_act(a) for a in s) + ">>" for s in scripts) + "}"
+        pre = "TLCEval(UNION {{SubSeq(s, 1, k) : k \\in 1..Len(s)} : s \\in McScripts})"
+    else:
+        sc, pre = "{}", "{}"
+    mc = "---- MODULE RuntimeMC ----\nEXTENDS Runtime\nMcNames == %s\nMcScripts == %s\nMcPrefixes == %s\n====\n" % (
+        vlib.tla_value(list(names)), sc, pre)
     return vlib.tlc(ctx, "RuntimeMC", t, extra_files={"RuntimeMC.tla": mc}, label=label or ("Runtime-" + fam), **kw)
 
 
@@ -117,9 +122,13 @@ def case_key(c):
     return json.dumps([c.get("assign"), [s["a"] for s in c["h"]]], sort_keys=True)
 
 
-def ops_of(fam, a):
+def ops_of(fam, a, running=()):
     src = SOURCES[fam]
-    if a["op"] == "write":
+    if a["op"] == "load":
+        ops = [{"op": "write", "file": a["name"], "src": src[a["cid"]], "cid": a["cid"]}, {"op": "loadprog", "file": a["name"]}]
+    elif a["op"] == "unload":
+        ops = [{"op": "rm", "file": a["name"]}] + ([{"op": "unload", "file": a["name"]}] if a["name"] in running else [])
+    elif a["op"] == "write":
         ops = [{"op": "write", "file": a["name"], "src": src[a["cid"]], "cid": a["cid"]}, {"op": "loadall"}]
     elif a["op"] == "rm":
         ops = [{"op": "rm", "file": a["name"]}, {"op": "loadall"}]
@@ -127,8 +136,6 @@ def ops_of(fam, a):
         ops = [{"op": "mv", "file": a["name"], "to": a["to"]}, {"op": "loadall"}]
     elif a["op"] == "mkdir":
         ops = [{"op": "mkdir", "file": a["name"], "src": src.get("v1", "")}, {"op": "loadall"}]
-    elif a["op"] == "unload":
-        ops = [{"op": "unload", "file": a["name"]}]
     elif a["op"] == "line":
         ops = [{"op": "line", "text": LINES[a["line"]]}]
     elif a["op"] == "gc":
@@ -140,15 +147,16 @@ def ops_of(fam, a):
     return ops
 
 
-def concretise(fam, c, cdev=None, cid="", scope=""):
+def concretise(fam, c, cdev=None, cid="", scope="", omit_source=False):
     steps = []
     for i, s in enumerate(c["h"]):
-        st = {"ops": ops_of(fam, s["a"]), "want": s["obs"]}
+        running = [r["p"] for r in c["h"][i - 1]["obs"]["run"]] if i else []
+        st = {"ops": ops_of(fam, s["a"], running), "want": s["obs"]}
         if cdev is not None and cdev["h"][i]["obs"] != s["obs"]:
             st["wantdev"] = cdev["h"][i]["obs"]
         steps.append(st)
     names = NAMES[fam] if not c.get("assign") else sorted(c["assign"].keys())
-    return {"id": cid, "names": list(names), "scope": scope, "steps": steps}
+    return {"id": cid, "names": list(names), "scope": scope, "steps": steps, "omit_source": omit_source}
 
 
 def describe(fam, c):
@@ -158,6 +166,10 @@ def describe(fam, c):
         a = s["a"]
         if a["op"] == "write":
             out.append("write %s=%s+reload" % (a["name"], a["cid"]))
+        elif a["op"] == "load":
+            out.append("write %s=%s+LoadProgram" % (a["name"], a["cid"]))
+        elif a["op"] == "unload":
+            out.append("rm %s+UnloadProgram" % a["name"])
         elif a["op"] == "line":
             out.append("line %r" % LINES[a["line"]])
         elif a["op"] == "mv":
@@ -181,7 +193,7 @@ def _shards(items, n):
     return [items[i:i + k] for i in range(0, len(items), k)]
 
 
-def replay(ctx, binary, fam, cases, cases_dev=None, scope="", what="", nproc=None, open_devs=()):
+def replay(ctx, binary, fam, cases, cases_dev=None, scope="", what="", nproc=None, open_devs=(), omit_source=False):
     """Replays every TLC case on the real code.  Returns (n_ok, n_dev, n_bad)."""
     if not cases:
         raise vlib.InfraError("TLC emitted no cases (%s)" % what)
@@ -191,7 +203,7 @@ def replay(ctx, binary, fam, cases, cases_dev=None, scope="", what="", nproc=Non
     hc = []
     for i, c in enumerate(cases):
         d = devmap[case_key(c)] if devmap is not None else None
-        hc.append(concretise(fam, c, d, cid=str(i), scope=scope))
+        hc.append(concretise(fam, c, d, cid=str(i), scope=scope, omit_source=omit_source))
     nproc = nproc or max(1, min(vlib.NCPU, 16))
     shards = _shards(hc, nproc if len(hc) >= 200 else 1)
     lock = threading.Lock()
@@ -244,9 +256,10 @@ def replay(ctx, binary, fam, cases, cases_dev=None, scope="", what="", nproc=Non
                     {"family": fam, "history": describe(fam, cases[i]), "harness_case": hc[i],
                      "first_bad_step": st, "differs_in": b.get("why"), "got": b["got"][st], "want": want,
                      "open_deviations_tried": list(open_devs)},
-                    "%s: after step %d of [%s] the real %s differs from spec/Runtime.tla (corrected design%s)" % (
+                    "%s: after step %d of [%s] the real %s differs from spec/Runtime.tla (corrected design)%s" % (
                         fam, st + 1, describe(fam, cases[i]), b.get("why"),
-                        (" and with open deviations %s" % ",".join(open_devs)) if open_devs else ""))
+                        (", and step %s differs in %s from the model with the open deviations %s" % (
+                            b.get("step_dev", 0) + 1, b.get("why_dev"), ",".join(open_devs))) if open_devs else ""))
     if n_seen != len(hc):
         raise vlib.InfraError("harness processed %d of %d cases (%s)" % (n_seen, len(hc), what))
     ctx.cov["traces_validated_against_impl"] += len(hc)
@@ -276,8 +289,8 @@ def replay_file(ctx, pkg, path):
             vlib.log("replay: behaviour is explained by the deviating model")
 
 
-def parallel(jobs):
-    """Run callables concurrently; re-raise the first exception."""
-    with ThreadPoolExecutor(max_workers=len(jobs)) as ex:
+def parallel(jobs, limit=6):
+    """Run callables concurrently (at most `limit` at a time, in the given order); re-raise the first exception."""
+    with ThreadPoolExecutor(max_workers=max(1, min(limit, len(jobs)))) as ex:
         futs = [ex.submit(j) for j in jobs]
         return [f.result() for f in futs]
